@@ -494,6 +494,8 @@ def r7_oneshot_reopen(ctx):
             out.append(holds("C02.R7", "Resolver::open:reopen-of-resolved", t.where(), "reopen by descriptor of the in-root lookup result"))
         else:
             out.append(violated("C02.R7", "Resolver::open:reopen-of-resolved", t.where(), "reopen target is not the handle returned by the in-root lookup"))
+    from .c09 import reopen_by_descriptor
+    out.extend(reopen_by_descriptor(ctx, "C02.R7"))
     return out
 
 
@@ -508,6 +510,62 @@ def r8_kernel_scoping(ctx):
     return out
 
 
+AS_UNSAFE_PATH = "<Fd as utils::fd::FdExt>::as_unsafe_path"
+PROC_READLINK = "procfs::ProcfsHandle::readlink"
+
+
+def r9_observed_path(ctx):
+    """check_current compares what the kernel reports for the descriptor with the expected path.  The report has to
+    arrive unedited: as_unsafe_path returns the result of ProcfsHandle::readlink(ProcThreadSelf, fd/<its own fd>) and
+    that returns the result of readlinkat on the magic-link it opened -- nothing trimmed, normalised or substituted
+    on the way (a sibling called "<root> (deleted)" or "<root>/" must not compare equal to the root)."""
+    F = ctx.facts
+    T = ctx.tracer
+    out = []
+
+    def only_from(fn, key, want, why):
+        if not F.has(fn):
+            return [violated("C02.R9", key, "", "anchor %s not found" % fn)]
+        b = F.body(fn)
+        ro = [o for o in T.return_origins(b, OKP) if not (o.kind == "call" and o.term.callee == "std::ops::FromResidual::from_residual")]
+        bad = [o for o in ro if not (o.kind == "call" and o.term.callee in want)]
+        good = [o for o in ro if o.kind == "call" and o.term.callee in want]
+        if bad or not good:
+            return [violated("C02.R9", key, (bad[0].term.where() if bad and bad[0].term is not None else b.where()),
+                             "%s: the returned path has other origins than %s: %s" % (why, sorted(want), sorted({repr(o) for o in bad})[:4]))], good
+        return [holds("C02.R9", key, good[0].term.where(), "%s: returned path is the unedited result of %s" % (why, sorted({o.term.callee for o in good})))], good
+
+    r = only_from(AS_UNSAFE_PATH, "as_unsafe_path:unedited", {PROC_READLINK}, "descriptor path used by check_current")
+    items, calls = r if isinstance(r, tuple) else (r, [])
+    out.extend(items)
+    for o in calls:
+        t = o.term
+        base = {x.detail if x.kind == "agg" else repr(x) for x in T.origins_of_arg(t, 1)}
+        sub = T.origins_of_arg(t, 2)
+        ok_base = bool(base) and all("ProcThreadSelf" in str(x) for x in base)
+        ok_sub = bool(sub) and all(x.kind == "call" and x.term.callee == "utils::fd::proc_subpath" for x in sub)
+        if ok_sub:
+            for x in sub:
+                fo = T.origins_of_arg(x.term, 0)
+                ok_sub = ok_sub and bool(fo) and all(y.kind == "param" and y.detail == 1 or (y.kind == "call" and y.term.callee == "std::os::fd::AsFd::as_fd" and all(z.kind == "param" and z.detail == 1 for z in T.origins_of_arg(y.term, 0))) for y in fo)
+        if ok_base and ok_sub:
+            out.append(holds("C02.R9", "as_unsafe_path:link", t.where(), "reads thread-self/fd/<own descriptor>"))
+        else:
+            out.append(violated("C02.R9", "as_unsafe_path:link", t.where(), "as_unsafe_path does not read the magic-link of its own descriptor under thread-self (base %s, subpath %s)" % (sorted(map(str, base)), sub)))
+    r = only_from(PROC_READLINK, "ProcfsHandle::readlink:unedited", {"syscalls::readlinkat"}, "procfs readlink")
+    items, calls = r if isinstance(r, tuple) else (r, [])
+    out.extend(items)
+    for o in calls:
+        t = o.term
+        fo = T.origins_of_arg(t, 0)
+        po = {x.const_bytes() if x.kind == "const" else repr(x) for x in T.origins_of_arg(t, 1)}
+        if fo and all(x.kind == "call" and x.term.callee == "procfs::ProcfsHandle::open" for x in fo) and all(x in (b"", "") for x in po) and po:
+            out.append(holds("C02.R9", "ProcfsHandle::readlink:link", t.where(), "readlinkat(<the link opened through the handle>, \"\")"))
+        else:
+            out.append(violated("C02.R9", "ProcfsHandle::readlink:link", t.where(), "readlinkat is not applied to the link opened through this handle with an empty path: fd %s, path %s" % (fo, sorted(map(str, po)))))
+    return out
+
+
 RULES = [
     ("C02.R8", r8_kernel_scoping, 2, False),
     ("C02.R1", r1_verify_after_dotdot, 3, False),
@@ -517,4 +575,5 @@ RULES = [
     ("C02.R5", r5_readlink_on_fd, 4, False),
     ("C02.R6", r6_kernel_retry, 4, False),
     ("C02.R7", r7_oneshot_reopen, 2, False),
+    ("C02.R9", r9_observed_path, 4, False),
 ]
